@@ -22,6 +22,53 @@ func checkC08(c *Check, a *Anchors) {
 	c08NoSilentOverwrite(c, a)
 	c08CycleVersionMissing(c, a)
 	c08RootRef(c, a)
+	c08IncludeBase(c, a)
+}
+
+// c08IncludeBase: sibling agreement between ResolveEntrypoint and ResolveDir of the local node types.
+func c08IncludeBase(c *Check, a *Anchors) {
+	c.Rule("include-base-agrees", "for every node type that resolves a relative include path by joining it onto a local directory, ResolveDir (the include's `dir:`) joins onto the SAME base expression as ResolveEntrypoint (the include's `taskfile:`): both are relative to the file that contains the include statement")
+	n := 0
+	types_ := map[string]map[string]string{}
+	for _, fb := range c.P.BodiesIn(PkgTaskfile) {
+		if fb.Decl == nil || fb.Decl.Recv == nil || (fb.Decl.Name.Name != "ResolveDir" && fb.Decl.Name.Name != "ResolveEntrypoint") {
+			continue
+		}
+		info := fb.Info()
+		base := ""
+		for _, r := range returnsOf(fb.Body) {
+			if len(r.Results) != 2 {
+				continue
+			}
+			call, ok := ast.Unparen(r.Results[0]).(*ast.CallExpr)
+			if !ok {
+				continue
+			}
+			if fn, ok := callee(info, call).(*types.Func); ok && fn.Name() == "SmartJoin" && len(call.Args) == 2 {
+				e := call.Args[0]
+				if v := varOf(info, e); v != nil {
+					if d := singleDef(info, fb.Body, v); d != nil {
+						e = d
+					}
+				}
+				base = shapeOf(info, e)
+			}
+		}
+		if types_[recvOf(fb)] == nil {
+			types_[recvOf(fb)] = map[string]string{}
+		}
+		types_[recvOf(fb)][fb.Decl.Name.Name] = base
+		c.Fn(fb)
+	}
+	for tn, m := range types_ {
+		if m["ResolveEntrypoint"] == "" || m["ResolveDir"] == "" {
+			continue // remote node types build URLs, not local joins
+		}
+		n++
+		c.Decide(m["ResolveEntrypoint"] == m["ResolveDir"], "include-base-agrees", tn, 0, "both join onto "+m["ResolveDir"],
+			fmt.Sprintf("(*%s).ResolveDir joins a relative `dir:` onto %s but ResolveEntrypoint joins a relative `taskfile:` onto %s: an included Taskfile's tasks run in a directory that is not relative to the file containing the include", tn, m["ResolveDir"], m["ResolveEntrypoint"]))
+	}
+	c.Floor("include-base-agrees", n, 2)
 }
 
 // structFields lists the fields of a named struct that carry data (sync primitives excluded).
